@@ -39,12 +39,19 @@ IMPORTS = ['Gen.SettingsTables', 'Model.C19_Settings', 'Model.C19_Repo', 'Spec.C
 MODEL_TARGETS = ['Gen/SettingsTables.vo', 'Model/C19_Settings.vo', 'Model/C19_Repo.vo', 'Spec/C19_Domain.vo', 'Spec/C19_Compat.vo']
 
 PREAMBLE = '''
-Definition chk_domain (c : (heap * settings) * bool) : bool :=
-  let '((h, s), py) := c in
-  Bool.eqb (typed (view h s) && in_domain repo_tables (view h s)) py.
-Definition chk_supported (c : (heap * settings) * bool) : bool :=
-  let '((h, s), py) := c in
-  Bool.eqb (supported_only repo_tables repo_install (view h s)) py.
+(* one literal per observed call: the observation, the Python domain oracle's verdict on the receiver and the
+   Python supportedness oracle's verdict on the result (true when there is no result) *)
+Definition CaseT := (obs * bool * bool)%type.
+Definition chk_model (c : CaseT) : bool := chk_validate (fst (fst c)).
+Definition chk_domain (c : CaseT) : bool :=
+  let '(o, pyd, _) := c in
+  Bool.eqb (typed (view (obs_heap0 o) (obs_self o)) && in_domain repo_tables (view (obs_heap0 o) (obs_self o))) pyd.
+Definition chk_supported (c : CaseT) : bool :=
+  let '(o, _, pys) := c in
+  match obs_res o with
+  | Some l => Bool.eqb (supported_only repo_tables repo_install (map (hget (obs_heap1 o)) l, sc (obs_self o))) pys
+  | None => true
+  end.
 '''
 
 
@@ -84,9 +91,11 @@ def direct_oracles(ctx, s, labels, inst, desc, stream, found):
     before = M.snapshot(s)
     rep = M.representable(s)
     lit = None
+    sc_same = True
     if rep:
         try:
             lit, out = M.observe(s)
+            sc_same = out.get('scalars_same', True)
             r, exc_name = out['result'], out['exc']
             exc = None
             if exc_name:
@@ -168,7 +177,8 @@ def direct_oracles(ctx, s, labels, inst, desc, stream, found):
     key = (tuple(sorted(set(l.split(':')[0] for l in labels)))[:3], exc_name or 'ok', bool(dv), bool(te), rep)
     ctx.count(stream, 1, [key], sample={'labels': labels, 'outcome': exc_name or 'ok', 'outside': dv[:2]}
               if ctx.cov['streams'].get(stream, {}).get('evaluations', 0) % 53 == 0 else None)
-    return {'lit': lit, 'rep': rep, 'exc': exc_name, 'dv': dv, 'result': r, 'in_domain': not te and not dv, 'te': te}
+    return {'lit': lit, 'rep': rep, 'exc': exc_name, 'dv': dv, 'result': r, 'in_domain': not te and not dv, 'te': te,
+            'scalars_same': sc_same}
 
 
 def drift_check(ctx):
@@ -252,8 +262,18 @@ def run(ctx):
     if res['model_ok'] and tie_broken is None:
         idx = [i for i, o in enumerate(outs) if o[2]['rep'] and o[2]['lit']]
         lits = [outs[i][2]['lit'] for i in idx]
-        bad, errs = vlib.coq_bad_indices('C19' + RUN, IMPORTS, 'obs', 'chk_validate', lits,
-                                         shard=max(8, (len(lits) + 15) // 16) if quick else 60)
+        lits, dmeta = [], []
+        for i in idx:
+            desc, labels, o = outs[i]
+            pys = True if o['result'] is None else not G.unsupported_names(o['result'], inst)
+            lits.append('(%s, %s, %s)' % (o['lit'], vlib.boollit(o['in_domain']), vlib.boollit(pys)))
+            dmeta.append((labels, o['dv'] + o['te']))
+            if not o.get('scalars_same', True):
+                tie_broken = tie_broken or ('validate() returned an object whose scalar attributes differ from the receiver\'s '
+                                            '(the model keeps them): %s' % (labels,))
+        (bad, bad_d, bad_s), errs = vlib.coq_bad_indices('C19' + RUN, IMPORTS, 'CaseT', ['chk_model', 'chk_domain', 'chk_supported'],
+                                                         lits, shard=max(8, (len(lits) + 15) // 16) if quick else 60,
+                                                         preamble=PREAMBLE)
         for k, i in enumerate(idx):
             d_, l_, o_ = outs[i]
             ctx.count('model-vs-impl(vm_compute)', 1,
@@ -265,30 +285,14 @@ def run(ctx):
             ctx.log('model/impl disagreement on case %d %s (impl outcome %s)' % (idx[i], labels, o['exc'] or 'ok'))
             tie_broken = tie_broken or ('model of validate() disagrees with the implementation on %s (outcome %s); settings=%s'
                                         % (labels, o['exc'] or 'ok', json.dumps(desc)[:1500]))
-        # spec cross-check: Coq domain/supported specs vs the Python oracles on the same objects
-        dl, sl_, dmeta = [], [], []
-        for i in idx:
-            desc, labels, o = outs[i]
-            s0 = M.rebuild(desc)
-            dl.append('(%s, %s)' % (M.settings_lit(s0), vlib.boollit(o['in_domain'])))
-            dmeta.append((labels, o['dv'] + o['te']))
-            if o['result'] is not None:
-                sl_.append('(%s, %s)' % (M.settings_lit(o['result']), vlib.boollit(not G.unsupported_names(o['result'], inst))))
-        bad_d, errs = vlib.coq_bad_indices('C19d' + RUN, IMPORTS, '((heap * settings) * bool)', 'chk_domain', dl,
-                                           shard=max(8, (len(dl) + 15) // 16) if quick else 60, preamble=PREAMBLE)
-        for e in errs:
-            tie_broken = tie_broken or ('domain evaluation failed: ' + e[:400])
+        # spec cross-check: Coq domain/supported specs vs the Python oracles on the same objects (same literals)
         for i in bad_d[:3]:
             tie_broken = tie_broken or ('Coq domain spec and Python domain oracle disagree on %s %s' % dmeta[i])
             ctx.log('domain spec disagreement: %s %s' % dmeta[i])
-        bad_s, errs = vlib.coq_bad_indices('C19s' + RUN, IMPORTS, '((heap * settings) * bool)', 'chk_supported', sl_,
-                                           shard=max(8, (len(sl_) + 15) // 16) if quick else 60, preamble=PREAMBLE)
-        for e in errs:
-            tie_broken = tie_broken or ('supported evaluation failed: ' + e[:400])
         for i in bad_s[:3]:
             tie_broken = tie_broken or 'Coq supported_only spec and Python oracle disagree on a validated object'
         ctx.log('model-vs-impl and spec cross-checks evaluated (vm_compute)')
-        ctx.count('spec-crosscheck(vm_compute)', len(dl) + len(sl_), [('domain', len(dl) - len(bad_d)), ('supported', len(sl_) - len(bad_s))])
+        ctx.count('spec-crosscheck(vm_compute)', 2 * len(lits), [('domain', len(lits) - len(bad_d)), ('supported', len(lits) - len(bad_s))])
     elif not res['model_ok']:
         tie_broken = tie_broken or ('model does not compile: %s' % res['failing'])
     # ---------------------------------------------------------------- second sentence: live handshakes
